@@ -23,7 +23,7 @@ def run(repo, run, tier):
     # crossing as rising/falling must lie before/after the root in the direction of the step, or every compatible crossing of a backward run is dropped
     from .c07 import sample_kinds
     rid = run.rule("C08.5", "the samples that classify a crossing (rising / falling) are taken at root -/+ a SIGNED fraction of the step (t_next - t_prev): "
-                            "'before' and 'after' follow the direction of integration, so a directional event is not filtered out on backward runs", floor=4)
+                            "'before' and 'after' follow the direction of integration, so a directional event is not filtered out on backward runs", floor=2)
     sample_kinds(repo, run, rid, "C08.5")
     # 'does not depend on the scale of the event function': the vectorised root search decides sign relations from signs, not from products that underflow
     from .c14 import product_sign_tests
